@@ -887,8 +887,17 @@ fn encode_case(job: &Job, bases: &Bases) -> Value {
 }
 
 // ------------------------------------------------------------------ containment: thread + watchdog
+fn thread_count() -> usize {
+    std::fs::read_to_string("/proc/self/status")
+        .ok()
+        .and_then(|s| s.lines().find(|l| l.starts_with("Threads:")).and_then(|l| l[8..].trim().parse().ok()))
+        .unwrap_or(1)
+}
+
 pub enum Done {
     Result(Value),
+    /// result complete, but threads of the code under test are still alive: continue in a fresh process
+    Restart(Value),
     /// the case did not return: the process must be replaced (the stuck thread cannot be killed)
     Stuck(Value),
 }
@@ -916,6 +925,16 @@ pub fn run_job(job: &Job, bases: &Arc<Bases>) -> Done {
         match rx.recv_timeout(Duration::from_millis(200)) {
             Ok(c) => {
                 let _ = th.join();
+                // Threads the case left behind (workers of a dropped MT reader / writer) still allocate: the next case's
+                // measurements are only meaningful once this process is back to its main thread. If they do not go
+                // away the process is replaced (the result of THIS case is complete either way).
+                let t1 = Instant::now();
+                while thread_count() > 1 {
+                    if t1.elapsed() > Duration::from_secs(10) {
+                        return Done::Restart(c.v);
+                    }
+                    std::thread::sleep(Duration::from_millis(2));
+                }
                 return Done::Result(c.v);
             }
             Err(mpsc::RecvTimeoutError::Disconnected) => {
@@ -983,7 +1002,7 @@ pub fn main_loop() {
                 writeln!(out, "{}", v).unwrap();
                 out.flush().unwrap();
             }
-            Done::Stuck(v) => {
+            Done::Stuck(v) | Done::Restart(v) => {
                 writeln!(out, "{}", v).unwrap();
                 out.flush().unwrap();
                 drop(out);
